@@ -52,9 +52,9 @@ U("c12_filter_leftmost_longest", ["C12"], "h_filter", ["C12/filter.c"], ["aho-co
 #  each state carries a 256-entry transition array; not registered)
 
 # ---- trie construction: the node array grows while the recursion holds an index into it
-for _kl in (1, 3):
-    U("c12_trie_insert_grows_K%d" % _kl, ["C12", "C01"], "h_trie_insert", ["C12/trie_insert.c"], ["aho-corasick.c"], plain=True, lib=(), kind="bounded",
+for _kl in (1, 2):
+    U("c12_trie_insert_grows_K%d" % _kl, ["C12", "C01"], "h_trie_insert", ["C12/trie_insert.c"], ["aho-corasick.c"], plain=True, lib=(), kind="bounded", tier=("quick" if _kl == 1 else "thorough"),
       defines=["-DKL=%d" % _kl], bounds={"key bytes": _kl, "initial size = capacity": 2, "unwind": 6},
       cbmc_flags=["--unwind", "6", "--unwinding-assertions"],
-      functions=["trie_insert", "trie_node_insert"], callees={"realloc": "contract stub: a block of exactly the requested size, old block released", "memset/calloc/free": "CBMC built-in"}, native=None, min_obligations=20, timeout=300, cost=20,
+      functions=["trie_insert", "trie_node_insert"], callees={"realloc": "contract stub: a block of exactly the requested size, old block released", "memset/calloc/free": "CBMC built-in"}, native=None, min_obligations=20, timeout=600, cost=60,
       assumptions=[NOFAIL, "the array starts full with 2 nodes instead of 256 so that growth happens within a short key; the growth code is the same"])
